@@ -162,8 +162,10 @@ PROPS['C16'] = dict(
                   'matrices are expanded into scalar sums at translation time (zero entries skipped)',
                   'shape specialisation: the 3x3 and 3x1 cases of vcv_cart2local/vcv_local2cart are modelled; the '
                   'ValueError branch for other shapes is checked by the search step only'],
-    assumptions=['"tabulated 95 % coverage factors equal the two-sided Student-t quantiles to five decimals" is decided by '
-                 'comparison with scipy.stats.t.ppf only (no verified incomplete-beta numerics in Mathlib)',
+    assumptions=['"tabulated 95 % coverage factors equal the two-sided Student-t quantiles to five decimals" is a theorem '
+                 '(Proofs/C16b.lean: t_table, k_val95_quantile, t_quantile_exists_unique) about the coverage in closed '
+                 'trigonometric form, linked to the density (1+t²/ν)^(-(ν+1)/2) by the substitution theorem tDens_subst and '
+                 'the limit density_mass_limit; the scipy comparison remains as the failing-input search',
                  'binary64 rounding in the rotations and square roots is covered by search (condition numbers to 1e8)',
                  'isinstance(dof, int) is modelled as integrality of the value'],
 )
@@ -418,6 +420,9 @@ PROPS['C17']['trusted_base'] = ['Model/Ntv2.lean is a hand-written model of ntv2
                                 'its two interpolation kernels are proved equal to the regenerated text of the code; numpy '
                                 'round/matmul facts measured and modelled (rint(x*1e6)/1e6; left-to-right sums, exact for '
                                 'float32-exact fields)']
+PROPS['C16']['more_proof_modules'] = ['GeodeVerif.Proofs.C16b']
+PROPS['C16']['required_theorems'] += ['ttable_is_tableQ', 'even_checks', 'odd_checks', 't_table_even', 't_table_odd', 't_table',
+                                      't_table_bracket', 't_quantile_exists_unique', 'k_val95_quantile', 'k_val95_even']
 PROPS['C17']['more_proof_modules'] += ['GeodeVerif.Proofs.C17c']
 PROPS['C17']['ntv2d_modules'] = ['GeodeVerif.Proofs.C17c']
 PROPS['C17']['needs_ntv2d'] = True
